@@ -129,6 +129,9 @@ struct Knobs {
     st_idle_timeout_ms: u64,
     ms_response_timeout_ms: u64,
     n_servers: usize,
+    /// Datagram transport: requests in flight at once / receive buffer size.
+    dg_max_parallel: usize,
+    dg_recv_size: usize,
 }
 
 /// Per-server disposition for the composite transports.
@@ -724,6 +727,8 @@ async fn run(_tier: Tier) {
             Kind::Redundant | Kind::LoadBalancer => 2 + sim::draw("cfg.n_servers", 2) as usize,
             _ => 1,
         },
+        dg_max_parallel: *sim::pick("cfg.dg_max_parallel", &[100usize, 1, 2]),
+        dg_recv_size: *sim::pick("cfg.dg_recv_size", &[2000usize, 512, 100]),
     };
     ev!("knobs {:?}", kn);
 
@@ -762,6 +767,8 @@ async fn run(_tier: Tier) {
     let mut dg_cfg = dgram::Config::new();
     dg_cfg.set_read_timeout(Duration::from_millis(kn.dg_read_timeout_ms));
     dg_cfg.set_max_retries(kn.dg_retries);
+    dg_cfg.set_max_parallel(kn.dg_max_parallel);
+    dg_cfg.set_recv_size(kn.dg_recv_size);
     let mut st_cfg = stream::Config::new();
     st_cfg.set_response_timeout(Duration::from_millis(kn.st_response_timeout_ms));
     st_cfg.set_idle_timeout(Duration::from_millis(kn.st_idle_timeout_ms));
@@ -829,6 +836,7 @@ async fn run(_tier: Tier) {
         }
         Kind::LoadBalancer => {
             let mut lcfg = load_balancer::Config::default();
+            lcfg.set_slow_rt_factor(*sim::pick("cfg.lb_slow_rt_factor", &[5.0f64, 1.0, 1.5, 100.0]));
             lcfg.set_defer_transport_error(sim::chance("cfg.defer_transport_error", 1, 2));
             lcfg.set_defer_refused(sim::chance("cfg.defer_refused", 1, 2));
             lcfg.set_defer_servfail(sim::chance("cfg.defer_servfail", 1, 2));
@@ -912,13 +920,17 @@ async fn run(_tier: Tier) {
     if sim::over_cap() {
         return;
     }
-    check(&led, &kn, total, finished, &connect_faults.lock().unwrap());
+    check(&led, &kn, total, finished, &connect_faults.lock().unwrap(), n_clients);
 }
 
-fn check(led: &Led, kn: &Knobs, total: usize, finished: bool, connect_faults: &[u64]) {
+fn check(led: &Led, kn: &Knobs, total: usize, finished: bool, connect_faults: &[u64], n_clients: usize) {
     let l = led.borrow();
     let slack = 200_000_000u64;
-    let dg_bound = (kn.dg_retries as u64 + 1) * kn.dg_read_timeout_ms * 1_000_000;
+    // With fewer datagram slots than callers a request first waits for the
+    // requests in front of it (the transport does not put a bound on that
+    // wait of its own).
+    let queue_factor = if kn.dg_max_parallel < n_clients { n_clients.div_ceil(kn.dg_max_parallel) as u64 } else { 1 };
+    let dg_bound = queue_factor * (kn.dg_retries as u64 + 1) * kn.dg_read_timeout_ms * 1_000_000;
     let ms_bound = kn.ms_response_timeout_ms * 1_000_000;
     for k in 0..total {
         let r = &l.reqs[k];
